@@ -152,11 +152,18 @@ type run struct {
 	sniffs   []sniffed
 	obs      chan *pbv1.QBFTConsensusMsg // what the Byzantine members observe
 	ended    bool
+	quiet    bool // prelude (an earlier duty on the same components): nothing is logged
 }
 
 func (r *run) now() int { return int(time.Since(r.t0) / time.Millisecond) }
 
 func (r *run) emit(ev drv.Step) {
+	r.mu.Lock()
+	q := r.quiet
+	r.mu.Unlock()
+	if q {
+		return
+	}
 	ev["now"] = r.now()
 	r.rotate(ev)
 	r.tr.Emit(ev)
@@ -840,6 +847,44 @@ func runCluster(t *testing.T, tr emitter, sid int, cfg map[string]any) {
 		sets[i] = set
 	}
 
+	// PRELUDE: an earlier duty of the same type runs to its end (decision, late votes that arrive after it, expiry and
+	// clean-up) on the SAME components, fault-free and unlogged; the judged duty must be what it is without it.
+	if boolean(cfg["prelude"]) && len(r.byz) == 0 {
+		pslot := slot - 12*n // more than an epoch (32 slots) earlier: past the attester deadline
+		pduty, pdelay := dutyOf(pslot, dtype)
+		r.mu.Lock()
+		r.quiet = true
+		crashes, drops := r.crashes, r.drops
+		r.crashes, r.drops = map[int]crashRule{}, nil
+		r.duty = pduty
+		r.mu.Unlock()
+		time.Sleep(time.Until(genesis.Add(time.Duration(pslot)*slotDur + pdelay)))
+		var pwg sync.WaitGroup
+		for i := 0; i < n; i++ {
+			if start[i] < 0 {
+				continue
+			}
+			set := proposal(t, dtype, pk)
+			pwg.Add(1)
+			go func() {
+				defer pwg.Done()
+				_ = comps[i].Propose(log.WithCtx(ctx, z.Int("node", i)), pduty, set)
+			}()
+		}
+		pdl, _ := deadlineFunc(pduty)
+		time.Sleep(time.Until(pdl.Add(2 * time.Second)))
+		synctest.Wait()
+		pwg.Wait()
+		if !time.Now().Before(r.t0) {
+			t.Fatalf("prelude duty ends after the judged duty starts")
+		}
+		r.mu.Lock()
+		r.crashes, r.drops = crashes, drops
+		r.duty = duty
+		r.bidx, r.decRound, r.sniffs = map[int]map[string]int{}, map[int]int{}, nil
+		r.quiet = false
+		r.mu.Unlock()
+	}
 	time.Sleep(time.Until(r.t0))
 	var wg sync.WaitGroup
 	for _, b := range r.byz[:min(1, len(r.byz))] {
